@@ -97,4 +97,3 @@ func (c *octx) getters() *eng.Violation {
 	}
 	return nil
 }
-
